@@ -258,7 +258,7 @@ def render(spec, stub='vrec'):
         if k not in ('test',):
             every.append(v + '_out')
     for d in spec.get('test_deps') or []:
-        L.append('test_deps(n%d)' % d)
+        L.append('test_deps(*n%d_out)' % d)
     if spec.get('default'):
         L.append('default(%s)' % ', '.join('n%d_out' % d for d in spec['default']))
     if spec.get('install'):
